@@ -21,7 +21,7 @@ RULE = ("scale instances = 17 classes + Diatonic with all 21 semitone-position p
         "random lists of the 35 names) against a brute-force subset specification. Non-trivial: instance whose tonic "
         "has an accidental or with more than one octave (every instance includes direction 'd'); recognition input with "
         ">= 3 notes whose non-empty expected answer differs from the answer for its first two notes."
-        ' Also: parallel-key chromatic pairs and every pair of instances that print the same name or share tonic and octave count (equality clause).')
+        ' Also: parallel-key chromatic pairs and every pair of instances that print the same name or share tonic and octave count (equality clause); recognition questions of 8-30 entries with repeats (melodies, scales played up and down).')
 ASSUMPTIONS = [
     "chromatic scale: descending form compared with the reversed ascending form by pitch class only (its documented "
     "spelling descends in flats)",
@@ -288,7 +288,11 @@ def _recognition_strategy():
     foreign = st.tuples(subset, st.sampled_from(NAMES35), st.integers(0, 7)).map(
         lambda t: t[0][:t[2]] + [t[1]] + t[0][t[2]:])
     rnd = st.lists(st.sampled_from(NAMES35), min_size=0, max_size=7)
-    return st.one_of(subset, subset, foreign, rnd)
+    # the same notes given many times (a melody, a scale played up and down over two octaves): only the set of notes counts
+    melody = scale.flatmap(lambda s: st.lists(st.sampled_from(s), min_size=8, max_size=30))
+    updown = scale.map(lambda s: list(s) + list(s) + list(reversed(s)))
+    melody_foreign = st.tuples(melody, st.sampled_from(NAMES35)).map(lambda t: t[0] + [t[1]])
+    return st.one_of(subset, subset, foreign, rnd, melody, updown, melody_foreign)
 
 
 def sub_recognition(ctx, shard, n):
